@@ -357,3 +357,364 @@ Proof.
         -- unfold in_write, wpc_of in *. rewrite (p_frame _ _ _ _ II H Hne). exact Hin.
   - exact I.
 Qed.
+
+(** ---- enabledness of loop steps ---- *)
+Lemma step_some_ok cfg s e : inv1 s -> step cfg s e <> None -> exists s', step cfg s e = Some (Ok s').
+Proof.
+  intros II Hn. destruct (step cfg s e) as [r|] eqn:E; [|congruence].
+  destruct (step_inv1 _ _ _ _ II E) as [s' [-> _]]. eauto.
+Qed.
+
+Lemma tp_enabled cfg s a : inv1 s ->
+  match s_p s with
+  | PIdle ch => is_closed (heap (s_pbl s)) ch = true
+  | PTimer dl => a_ok a = true /\ (dl <= a_time a)%N /\ (a_time a <= s_now s)%N
+  | PSyncSleep _ _ dl => (dl <= s_now s)%N
+  | PW _ WAcquire => s_store s = None
+  | PW _ (WSleep dl) => (dl <= s_now s)%N
+  | PExit => False
+  | _ => True
+  end -> exists s', step cfg s (EStep TP a) = Some (Ok s').
+Proof.
+  intros II Hc. apply step_some_ok; [exact II|]. cbn [step]. unfold pstep.
+  destruct (s_p s) as [|ch|ch|dl|keep|keep final|keep final|keep final dl|keep w|].
+  - discriminate.
+  - destruct (is_closed _ _); discriminate.
+  - rewrite Hc. destruct (s_cancel s && _); discriminate.
+  - destruct Hc as [Ha [H1 H2]]. apply N.leb_le in H1. apply N.leb_le in H2. rewrite H1, H2, Ha. cbn.
+    destruct (s_cancel s); discriminate.
+  - discriminate.
+  - destruct (a_ok a); discriminate.
+  - destruct (negb keep && negb final); discriminate.
+  - apply N.leb_le in Hc. rewrite Hc. discriminate.
+  - unfold wstep. destruct w.
+    + rewrite Hc. discriminate.
+    + destruct (get_persistent_state _) as [[? ?]|]; discriminate.
+    + destruct (a_ok a); discriminate.
+    + destruct (notify_state_written _); discriminate.
+    + apply N.leb_le in Hc. rewrite Hc. discriminate.
+  - destruct Hc.
+Qed.
+
+Lemma tr_holder_enabled cfg s a : inv1 s -> r_holds s = true -> exists s', step cfg s (EStep TR a) = Some (Ok s').
+Proof.
+  intros II Hh. apply step_some_ok; [exact II|]. cbn [step]. unfold rstep, r_holds in *.
+  destruct (s_r s) as [| |w]; try discriminate. unfold wstep. destruct w; try discriminate.
+  - destruct (get_persistent_state _) as [[? ?]|]; discriminate.
+  - destruct (a_ok a); discriminate.
+  - destruct (notify_state_written _); discriminate.
+Qed.
+
+(** ---- rank ---- *)
+Definition lockdist (s : sys) : nat :=
+  match s_r s with RW WGetState => 3 | RW (WWriting _) => 2 | RW WWritten => 1 | _ => 0 end.
+
+Definition d2 (s : sys) : nat :=
+  match s_p s with
+  | PW _ WGetState => 1
+  | PW _ WAcquire => 2 + lockdist s
+  | PW _ (WSleep _) => 4 + lockdist s
+  | PSyncRet _ _ => 3 + lockdist s
+  | PSyncing _ _ => 4 + lockdist s
+  | PSyncSleep _ _ _ => 6 + lockdist s
+  | _ => 0
+  end.
+
+Definition d1 (s : sys) : nat :=
+  match s_p s with PSyncRet _ _ => 1 | PSyncing _ _ => 2 | PSyncSleep _ _ _ => 4 | _ => 0 end.
+
+Definition d0 (s : sys) : nat :=
+  match s_p s with
+  | PNotify _ => 1
+  | PTimer _ => 3
+  | PIdle _ => 4
+  | PSelect _ => 5
+  | PStart => 6
+  | PW _ WWritten => 7
+  | PW _ (WWriting _) => 8
+  | PW _ WGetState => 9
+  | PW _ WAcquire => 10 + lockdist s
+  | PW _ (WSleep _) => 12 + lockdist s
+  | PSyncRet _ _ => 11 + lockdist s
+  | PSyncing _ _ => 12 + lockdist s
+  | PSyncSleep _ _ _ => 14 + lockdist s
+  | PExit => 0
+  end.
+
+Definition wd (t : tid) (s : sys) : nat := match wpc_of t s with Some w => w_dist w | None => 0 end.
+
+Definition rank (ph : phase) (s : sys) : nat :=
+  match ph with
+  | Ph0 => 18 + d0 s
+  | Ph1 => 13 + d1 s
+  | Ph2 => 3 + d2 s
+  | Ph3 t => wd t s
+  | PhDone => 0
+  end.
+
+Lemma lockdist_le s : lockdist s <= 3.
+Proof. unfold lockdist. destruct (s_r s) as [| |[]]; lia. Qed.
+
+Lemma rank_le ph s : rank ph s <= 35.
+Proof.
+  pose proof (lockdist_le s). destruct ph as [| | |t|]; unfold rank, d0, d1, d2, wd, wpc_of.
+  - destruct (s_p s) as [| | | | | | | |? []|]; lia.
+  - destruct (s_p s) as [| | | | | | | |? []|]; lia.
+  - destruct (s_p s) as [| | | | | | | |? []|]; lia.
+  - destruct t; [destruct (s_r s) as [| |[]]|destruct (s_p s) as [| | | | | | | |? []|]]; cbn; lia.
+  - lia.
+Qed.
+
+(** ---- the scheduling policy of the extension ---- *)
+Definition choose (ph : phase) (s : sys) : list event :=
+  match ph with
+  | Ph3 TR => [EStep TR ok0]
+  | _ =>
+      match s_p s with
+      | PTimer dl => [ETick dl; EStep TP (mkAns true dl)]
+      | PSyncSleep _ _ dl => [ETick dl; EStep TP ok0]
+      | PW _ (WSleep dl) => [ETick dl; EStep TP ok0]
+      | PW _ WAcquire => match lockdist s with 0 => [EStep TP ok0] | _ => [EStep TR ok0] end
+      | _ => [EStep TP ok0]
+      end
+  end.
+
+Lemma choose_fair ph s : fair (choose ph s) = true.
+Proof.
+  unfold choose. destruct ph as [| | |[]|]; try reflexivity;
+    destruct (s_p s) as [| | | | | | | |? []|]; try reflexivity; destruct (lockdist s); reflexivity.
+Qed.
+
+Lemma lockdist_holds s : r_holds s = match lockdist s with 0 => false | _ => true end.
+Proof. unfold r_holds, lockdist. destruct (s_r s) as [| |[]]; reflexivity. Qed.
+
+(** one step of the put loop: successor state, its pcs, the next phase *)
+Lemma tick_step cfg s d : step cfg s (ETick d) = Some (Ok (with_now s (s_now s + d))).
+Proof. reflexivity. Qed.
+
+Lemma ph_next_tick ph s d : ph_next ph s (ETick d) = ph.
+Proof. destruct ph; reflexivity. Qed.
+
+Lemma run1 cfg s e s' : step cfg s e = Some (Ok s') -> run cfg s [e] = Some (Ok s').
+Proof. intros H. cbn. rewrite H. reflexivity. Qed.
+
+Lemma scan1 cfg ph s e s' : step cfg s e = Some (Ok s') -> scan cfg ph s [e] = ph_next ph s e.
+Proof. intros H. cbn. rewrite H. reflexivity. Qed.
+
+Lemma run_tick cfg s d e s' : step cfg (with_now s (s_now s + d)) e = Some (Ok s') ->
+  run cfg s [ETick d; e] = Some (Ok s').
+Proof. intros H. cbn [run]. rewrite tick_step, H. reflexivity. Qed.
+
+Lemma scan_tick cfg ph s d e s' : step cfg (with_now s (s_now s + d)) e = Some (Ok s') ->
+  scan cfg ph s [ETick d; e] = ph_next ph (with_now s (s_now s + d)) e.
+Proof. intros H. cbn [scan]. rewrite tick_step, ph_next_tick, H. reflexivity. Qed.
+
+Lemma inv1_tick s d : inv1 s -> inv1 (with_now s (s_now s + d)).
+Proof. intros I. exact I. Qed.
+
+(** the successor-pc table as a predicate *)
+Definition p_succ (a : ans) (pc : ppc) (pc' : ppc) : Prop :=
+  match pc with
+  | PStart => exists ch, pc' = PSelect ch
+  | PSelect ch => (exists dl, pc' = PTimer dl) \/ pc' = PIdle ch
+  | PIdle _ => pc' = PNotify false \/ exists dl, pc' = PTimer dl
+  | PTimer _ => pc' = PNotify false \/ pc' = PNotify true
+  | PNotify k => pc' = PSyncing k false
+  | PSyncing k f => (a_ok a = true /\ pc' = PSyncRet k f) \/ (a_ok a = false /\ exists dl, pc' = PSyncSleep k f dl)
+  | PSyncSleep k f _ => pc' = PSyncing k f
+  | PSyncRet k f => pc' = (if negb k && negb f then PSyncing false true else PW k WAcquire)
+  | PW k w =>
+      match w with
+      | WAcquire => pc' = PW k WGetState
+      | WGetState => exists st, pc' = PW k (WWriting st)
+      | WWriting _ => (a_ok a = true /\ pc' = PW k WWritten) \/ (a_ok a = false /\ exists dl, pc' = PW k (WSleep dl))
+      | WWritten => pc' = (if k then PStart else PExit)
+      | WSleep _ => pc' = PW k WAcquire
+      end
+  | PExit => False
+  end.
+
+Lemma pstep_succ cfg a s s' : pstep cfg a s = Some (Ok s') -> p_succ a (s_p s) (s_p s').
+Proof. intros H. pose proof (pstep_pc _ _ _ _ H) as T. unfold p_succ. destruct (s_p s) as [| | | | | | | |? []|]; exact T. Qed.
+
+Definition tp_cond (s : sys) (a : ans) : Prop :=
+  match s_p s with
+  | PIdle ch => is_closed (heap (s_pbl s)) ch = true
+  | PTimer dl => a_ok a = true /\ (dl <= a_time a)%N /\ (a_time a <= s_now s)%N
+  | PSyncSleep _ _ dl => (dl <= s_now s)%N
+  | PW _ WAcquire => s_store s = None
+  | PW _ (WSleep dl) => (dl <= s_now s)%N
+  | PExit => False
+  | _ => True
+  end.
+
+Lemma tp_go cfg ph s a : inv1 s -> tp_cond s a ->
+  exists s', run cfg s [EStep TP a] = Some (Ok s') /\ scan cfg ph s [EStep TP a] = ph_next ph s (EStep TP a)
+    /\ s_r s' = s_r s /\ p_succ a (s_p s) (s_p s').
+Proof.
+  intros II Hc. destruct (tp_enabled cfg s a II Hc) as [s' Hs]. exists s'.
+  split; [apply run1; exact Hs|]. split; [eapply scan1; exact Hs|]. cbn [step] in Hs.
+  split; [eapply pstep_frame; eauto|eapply pstep_succ; eauto].
+Qed.
+
+Lemma ph_next_now ph s n e : ph_next ph (with_now s n) e = ph_next ph s e.
+Proof. destruct ph; reflexivity. Qed.
+
+Lemma tp_go_tick cfg ph s a d : inv1 s -> tp_cond (with_now s (s_now s + d)) a ->
+  exists s', run cfg s [ETick d; EStep TP a] = Some (Ok s')
+    /\ scan cfg ph s [ETick d; EStep TP a] = ph_next ph s (EStep TP a)
+    /\ s_r s' = s_r s /\ p_succ a (s_p s) (s_p s').
+Proof.
+  intros II Hc. destruct (tp_enabled cfg (with_now s (s_now s + d)) a II Hc) as [s' Hs]. exists s'.
+  split; [apply run_tick; exact Hs|]. split; [rewrite (scan_tick _ _ _ _ _ _ Hs); apply ph_next_now|].
+  cbn [step] in Hs.
+  pose proof (pstep_frame cfg a (with_now s (s_now s + d)) s' II Hs) as E.
+  pose proof (pstep_succ _ _ _ _ Hs) as T. split; [exact E|exact T].
+Qed.
+
+Definition r_succ (a : ans) (pc pc' : rpc) : Prop :=
+  match pc with
+  | RStart => exists ch, pc' = RWait ch
+  | RWait _ => pc' = RW WAcquire
+  | RW w =>
+      match w with
+      | WAcquire => pc' = RW WGetState
+      | WGetState => exists st, pc' = RW (WWriting st)
+      | WWriting _ => (a_ok a = true /\ pc' = RW WWritten) \/ (a_ok a = false /\ exists dl, pc' = RW (WSleep dl))
+      | WWritten => pc' = RStart
+      | WSleep _ => pc' = RW WAcquire
+      end
+  end.
+
+Lemma tr_go cfg ph s a : inv1 s -> r_holds s = true ->
+  exists s', run cfg s [EStep TR a] = Some (Ok s') /\ scan cfg ph s [EStep TR a] = ph_next ph s (EStep TR a)
+    /\ s_p s' = s_p s /\ r_succ a (s_r s) (s_r s').
+Proof.
+  intros II Hh. destruct (tr_holder_enabled cfg s a II Hh) as [s' Hs]. exists s'.
+  split; [apply run1; exact Hs|]. split; [eapply scan1; exact Hs|]. cbn [step] in Hs.
+  split; [eapply rstep_frame; eauto|].
+  pose proof (rstep_pc _ _ _ _ Hs) as T. unfold r_succ. destruct (s_r s) as [| |[]]; exact T.
+Qed.
+
+Ltac larith :=
+  repeat match goal with
+         | |- context [lockdist ?s] =>
+             let Hle := fresh "Hle" in let l := fresh "l" in
+             pose proof (lockdist_le s) as Hle; revert Hle; generalize (lockdist s); intros l Hle
+         end; cbn; lia.
+
+(** ---- progress: one chunk of the policy lowers the rank by its length ---- *)
+Definition progresses (cfg : config) (ph : phase) (s : sys) : Prop :=
+  exists s', run cfg s (choose ph s) = Some (Ok s')
+    /\ length (choose ph s) + rank (scan cfg ph s (choose ph s)) s' <= rank ph s.
+
+Lemma progress_ph3 cfg t s : ainv s -> pinv (Ph3 t) s -> progresses cfg (Ph3 t) s.
+Proof.
+  intros A [Hin _]. pose proof A as [[II _] _]. unfold progresses, choose. destruct t.
+  - pose proof (in_write_holds_r _ Hin) as Hh. unfold in_write, wpc_of in Hin.
+    destruct (tr_go cfg (Ph3 TR) s ok0 II Hh) as [s' [Hr [Hsc [_ T]]]].
+    exists s'. split; [exact Hr|]. rewrite Hsc. unfold ph_next. rewrite act_tr.
+    unfold is_wfail, rank, wd, wpc_of, r_succ in *. cbn [tid_eqb ok0 a_ok negb andb].
+    destruct (s_r s) as [| |[]] eqn:Er; try discriminate; cbn [wact is_written].
+    + destruct T as [[_ T]|[Hok _]]; [|discriminate]. cbn. rewrite T. cbn. lia.
+    + cbn. lia.
+  - unfold in_write, wpc_of in Hin.
+    assert (exists k w, s_p s = PW k w /\ (w = WWritten \/ exists st, w = WWriting st)) as [k [w [Ep Hw]]].
+    { destruct (s_p s) as [| | | | | | | |k []|]; try discriminate; eauto 6. }
+    rewrite Ep. assert (match w with WAcquire | WSleep _ => False | _ => True end) as Hw'.
+    { destruct Hw as [->|[st ->]]; exact I. }
+    destruct (tp_go cfg (Ph3 TP) s ok0 II) as [s' [Hr [Hsc [_ T]]]].
+    { unfold tp_cond. rewrite Ep. destruct w; try exact I; destruct Hw'. }
+    assert ([EStep TP ok0] = match w with WAcquire => match lockdist s with 0 => [EStep TP ok0] | _ => [EStep TR ok0] end
+                             | WSleep dl => [ETick dl; EStep TP ok0] | _ => [EStep TP ok0] end) as <-.
+    { destruct w; try reflexivity; destruct Hw'. }
+    exists s'. split; [exact Hr|]. rewrite Hsc. unfold ph_next. rewrite act_tp, Ep.
+    unfold is_wfail, rank, wd, wpc_of. cbn [tid_eqb ok0 a_ok negb andb]. rewrite Ep in *. unfold p_succ in T.
+    destruct Hw as [->|[st ->]]; cbn [wact is_written].
+    + cbn. lia.
+    + destruct T as [[_ T]|[Hok _]]; [|discriminate]. cbn. rewrite T. cbn. lia.
+Qed.
+
+Lemma progress_ph1 cfg s : ainv s -> pinv Ph1 s -> progresses cfg Ph1 s.
+Proof.
+  intros A P. pose proof A as [[II _] _]. cbn [pinv] in P. unfold p_syncing in P. unfold progresses, choose.
+  destruct (s_p s) as [| | | | |k f|k f|k f dl|? ?|] eqn:Ep; try discriminate.
+  - destruct (tp_go cfg Ph1 s ok0 II) as [s' [Hr [Hsc [Er T]]]]; [unfold tp_cond; rewrite Ep; exact I|].
+    exists s'. split; [exact Hr|]. rewrite Hsc. unfold ph_next, sync_completes. rewrite act_tp, Ep.
+    rewrite Ep in T. destruct T as [[_ T]|[Hok _]]; [|discriminate]. unfold rank, d1. rewrite T, Ep. cbn. lia.
+  - destruct (tp_go cfg Ph1 s ok0 II) as [s' [Hr [Hsc [Er T]]]]; [unfold tp_cond; rewrite Ep; exact I|].
+    exists s'. split; [exact Hr|]. rewrite Hsc. unfold ph_next, sync_completes. rewrite act_tp, Ep.
+    rewrite Ep in T. cbn in T. unfold rank, d1, d2. rewrite T, Ep.
+    assert (lockdist s' = lockdist s) as -> by (unfold lockdist; rewrite Er; reflexivity).
+    destruct (negb k && negb f); larith.
+  - destruct (tp_go_tick cfg Ph1 s ok0 dl II) as [s' [Hr [Hsc [Er T]]]].
+    { unfold tp_cond. cbn. rewrite Ep. lia. }
+    exists s'. split; [exact Hr|]. rewrite Hsc. unfold ph_next, sync_completes. rewrite act_tp, Ep.
+    rewrite Ep in T. cbn in T. unfold rank, d1. rewrite T, Ep. cbn. lia.
+Qed.
+
+(** the put loop waits for storeLock: it is free, or the release loop holds it
+    and advances *)
+Lemma lock_cases s k : ainv s -> s_p s = PW k WAcquire ->
+  (lockdist s = 0 /\ s_store s = None) \/ (0 < lockdist s /\ r_holds s = true).
+Proof.
+  intros [_ [_ [I3a _]]] Ep. pose proof (lockdist_holds s) as Hh.
+  destruct (lockdist s) as [|n]; [left|right; split; [lia|exact Hh]].
+  split; [reflexivity|]. rewrite Hh in I3a. unfold p_holds in I3a. rewrite Ep in I3a. exact I3a.
+Qed.
+
+Lemma lockdist_r_succ s s' : r_holds s = true -> r_succ ok0 (s_r s) (s_r s') -> S (lockdist s') = lockdist s.
+Proof.
+  unfold r_holds, r_succ, lockdist. destruct (s_r s) as [| |[]]; try discriminate; intros _ T.
+  - destruct T as [st ->]. reflexivity.
+  - destruct T as [[_ ->]|[Hok _]]; [reflexivity|discriminate].
+  - rewrite T. reflexivity.
+Qed.
+
+Lemma progress_ph2 cfg s : ainv s -> pinv Ph2 s -> progresses cfg Ph2 s.
+Proof.
+  intros A P. pose proof A as [[II _] _]. cbn [pinv] in P. unfold p2ok in P. unfold progresses, choose.
+  destruct (s_p s) as [| | | | |k f|k f|k f dl|k w|] eqn:Ep; try discriminate.
+  - (* PSyncing *)
+    destruct (tp_go cfg Ph2 s ok0 II) as [s' [Hr [Hsc [Er T]]]]; [unfold tp_cond; rewrite Ep; exact I|].
+    exists s'. split; [exact Hr|]. rewrite Hsc. unfold ph_next. rewrite act_tp, Ep. cbn [getstate_tid].
+    rewrite Ep in T. destruct T as [[_ T]|[Hok _]]; [|discriminate]. unfold rank, d2. rewrite T, Ep.
+    assert (lockdist s' = lockdist s) as -> by (unfold lockdist; rewrite Er; reflexivity). larith.
+  - (* PSyncRet *)
+    destruct k, f; try discriminate.
+    destruct (tp_go cfg Ph2 s ok0 II) as [s' [Hr [Hsc [Er T]]]]; [unfold tp_cond; rewrite Ep; exact I|].
+    exists s'. split; [exact Hr|]. rewrite Hsc. unfold ph_next. rewrite act_tp, Ep. cbn [getstate_tid].
+    rewrite Ep in T. cbn in T. unfold rank, d2. rewrite T, Ep.
+    assert (lockdist s' = lockdist s) as -> by (unfold lockdist; rewrite Er; reflexivity). larith.
+  - (* PSyncSleep *)
+    destruct (tp_go_tick cfg Ph2 s ok0 dl II) as [s' [Hr [Hsc [Er T]]]].
+    { unfold tp_cond. cbn. rewrite Ep. lia. }
+    exists s'. split; [exact Hr|]. rewrite Hsc. unfold ph_next. rewrite act_tp, Ep. cbn [getstate_tid].
+    rewrite Ep in T. cbn in T. unfold rank, d2. rewrite T, Ep.
+    assert (lockdist s' = lockdist s) as -> by (unfold lockdist; rewrite Er; reflexivity). larith.
+  - destruct w; try discriminate.
+    + (* WAcquire *)
+      destruct (lock_cases s k A Ep) as [[Hl Hst]|[Hl Hh]].
+      * rewrite Hl.
+        destruct (tp_go cfg Ph2 s ok0 II) as [s' [Hr [Hsc [Er T]]]]; [unfold tp_cond; rewrite Ep; exact Hst|].
+        exists s'. split; [exact Hr|]. rewrite Hsc. unfold ph_next. rewrite act_tp, Ep. cbn [wact getstate_tid].
+        rewrite Ep in T. cbn in T. unfold rank, d2. rewrite T, Ep. cbn. lia.
+      * destruct (lockdist s) as [|n] eqn:El; [lia|].
+        destruct (tr_go cfg Ph2 s ok0 II Hh) as [s' [Hr [Hsc [Ep' T]]]].
+        exists s'. split; [exact Hr|]. rewrite Hsc. pose proof (lockdist_r_succ _ _ Hh T) as Hld.
+        unfold ph_next. rewrite act_tr. unfold r_holds, r_succ in *.
+        destruct (s_r s) as [| |[]] eqn:Er; try discriminate; cbn [wact getstate_tid].
+        -- destruct T as [st T]. unfold rank, wd, wpc_of, d2. rewrite T, Ep. cbn. lia.
+        -- unfold rank, d2. rewrite Ep', Ep. cbn [length]. lia.
+        -- unfold rank, d2. rewrite Ep', Ep. cbn [length]. lia.
+    + (* WGetState *)
+      destruct (tp_go cfg Ph2 s ok0 II) as [s' [Hr [Hsc [Er T]]]]; [unfold tp_cond; rewrite Ep; exact I|].
+      exists s'. split; [exact Hr|]. rewrite Hsc. unfold ph_next. rewrite act_tp, Ep. cbn [wact getstate_tid].
+      rewrite Ep in T. cbn in T. destruct T as [st T]. unfold rank, wd, wpc_of, d2. rewrite T, Ep. cbn. lia.
+    + (* WSleep *)
+      destruct (tp_go_tick cfg Ph2 s ok0 deadline II) as [s' [Hr [Hsc [Er T]]]].
+      { unfold tp_cond. cbn. rewrite Ep. lia. }
+      exists s'. split; [exact Hr|]. rewrite Hsc. unfold ph_next. rewrite act_tp, Ep. cbn [wact getstate_tid].
+      rewrite Ep in T. cbn in T. unfold rank, d2. rewrite T, Ep.
+      assert (lockdist s' = lockdist s) as -> by (unfold lockdist; rewrite Er; reflexivity). larith.
+Qed.
